@@ -5,6 +5,7 @@ pub mod c01;
 pub mod c03;
 pub mod c04;
 pub mod c05;
+pub mod c06;
 pub mod c14;
 pub mod c15;
 pub mod c16;
@@ -16,6 +17,7 @@ pub fn run(ctx: &Ctx) -> Report {
     "C03" => c03::run_c03(ctx),
     "C04" => c04::run(ctx),
     "C05" => c05::run(ctx),
+    "C06" => c06::run(ctx),
     "C13" => c03::run_c13(ctx),
     "C14" => c14::run(ctx),
     "C15" => c15::run(ctx),
